@@ -363,6 +363,29 @@ func c09Run(c C09Case, record bool) (*pbt.Violation, c09Stats) {
 					}
 				}
 			}
+			if k%3 != 1 {
+				continue
+			}
+			// the same fault on a reader that fails ONCE (hands out nothing in that call) and goes on delivering
+			// afterwards - a read deadline that expired and was extended. The failed Read happened all the same.
+			for _, mode := range []int{0, 1} {
+				src := iox.NewSrc(doc)
+				src.FailAt, src.FailErr, src.Once = k, iox.ErrInjected, true
+				var r io.Reader = iox.Plain{R: src}
+				if mode == 1 {
+					r = iox.ByteSrc{Src: src}
+				}
+				st.readFaults++
+				var err error
+				desc := fmt.Sprintf("%s, stream of %d bytes whose reader fails once after %d bytes and then goes on (mode %d)", name, len(doc), k, mode)
+				if pv, stack := pbt.Try(func() { _, _, err = op.read(r) }); pv != nil {
+					return pbt.V(pbt.PanicKey("c09.readfault."+name, stack), "no panic", "%s panicked: %v\n%s", desc, pv, stack), st
+				}
+				if err == nil {
+					return pbt.V("c09.readfault.swallowed-once:"+name, "if the reader fails at any offset the operation returns a non-nil error",
+						"%s: returned success", desc), st
+				}
+			}
 		}
 	}
 
